@@ -15,4 +15,4 @@ assumptions = ["user futures are modelled by gates (they complete when the harne
                "the hooked build differs from the shipped one only in where time comes from and in the trace records"]
 harness_timeout = 600
 coq_per_file = 20
-also = ["C05a", "C05b", "C05c"]   # retry decision with hooks / skipped steps / World failures, fresh World per attempt
+also = ["C05a", "C05b", "C05c", "C05d"]   # retry decision with hooks / skipped steps / World failures, fresh World per attempt
